@@ -54,7 +54,7 @@ def run_scenario(sc: dict[str, Any]) -> dict[str, Any]:
         if sc.get('change_handlers', True):
             kopf.on.create(GROUP, VERSION, PLURAL, registry=reg, id='noop')(sim.handler('noop'))
             kopf.on.update(GROUP, VERSION, PLURAL, registry=reg, id='noop')(sim.handler('noop'))
-        op = sim.operator('op1', reg, sim.settings())
+        op = sim.operator('op1', reg, sim.settings(watching__reconnect_backoff=1))      # whole seconds also when a stream is reopened
         t0 = 1
         sim.world.at(t0, lambda: sim.create('o1', {'x': 1}), 1)
         x = [1]
@@ -66,6 +66,14 @@ def run_scenario(sc: dict[str, Any]) -> dict[str, Any]:
             o = sim.set_spec('o1', x=x[0]); edit_rvs.append(int(o['metadata']['resourceVersion']))
         for t in sc.get('changes', []):
             sim.world.at(t, edit, 1)
+
+        def edit_unseen():          # the change is made while the stream is cut and its version is compacted away: learnt from a re-listing
+            from sim.opsim import PLURAL
+            for w in [w for w in sim.srv.watches if w.res.plural == PLURAL]: w.end('eof')
+            edit()
+            sim.srv.compact(sim.things)
+        for t in sc.get('relist_changes', []):
+            sim.world.at(t, edit_unseen, 1)
         if sc.get('delete_at') is not None:
             sim.world.at(sc['delete_at'], lambda: sim.delete('o1') if sim.obj('o1') else None, 1)
         stall = False
@@ -116,6 +124,7 @@ def gen_scenarios(seed: int, n: int) -> list[dict[str, Any]]:
             runs.append((rnd.choice([0, 0, 1, 2, interval, interval + 1, 2 * interval + 1] if interval else [0, 1, 2]), k, rnd.choice([1, 2, 4]) if k == 'temp' else 0))
         changes = sorted(rnd.sample(range(2, 30), rnd.randint(0, 3)))
         out.append({'id': f'timer-{seed}-{i}', 'conf': conf, 'runs': runs, 'changes': changes,
+                    'relist_changes': [changes.pop()] if changes and i % 4 == 3 else [],
                     'delete_at': rnd.choice([None, None, rnd.randint(5, 35)]), 'end': 60})
     return out
 
